@@ -245,4 +245,168 @@ theorem evalClauses_spec {chosen : Array Bool} {M : Atom → Bool} {ev : Eval} :
         simp only [optVal] at h1
         simp only [List.any_cons, h1, hd2 ρ hρ]
 
+/-! ### the schedule only permutes -/
+
+theorem mem_of_getElem? {α} {l : List α} {j : Nat} {y : α} (h : l[j]? = some y) : y ∈ l :=
+  List.mem_of_getElem? h
+
+theorem mem_eraseIdx_or {α} : ∀ (l : List α) (j : Nat) (y : α), l[j]? = some y →
+    ∀ x, x ∈ l ↔ (x = y ∨ x ∈ l.eraseIdx j)
+  | [], j, y, h, x => by simp at h
+  | a :: l, 0, y, h, x => by
+    simp only [List.getElem?_cons_zero, Option.some.injEq] at h
+    subst h
+    simp [List.eraseIdx]
+  | a :: l, j + 1, y, h, x => by
+    simp only [List.getElem?_cons_succ] at h
+    have ih := mem_eraseIdx_or l j y h x
+    simp only [List.eraseIdx_cons_succ, List.mem_cons, ih]
+    constructor
+    · rintro (h | h | h)
+      · exact Or.inr (Or.inl h)
+      · exact Or.inl h
+      · exact Or.inr (Or.inr h)
+    · rintro (h | h | h)
+      · exact Or.inr (Or.inl h)
+      · exact Or.inl h
+      · exact Or.inr (Or.inr h)
+
+theorem mem_permute {α : Type} (code : List Nat) (l : List α) : ∀ x, x ∈ permute code l ↔ x ∈ l := by
+  fun_induction permute code l with
+  | case1 => intro x; exact Iff.rfl
+  | case2 => intro x; exact Iff.rfl
+  | case3 i is x xs l j y hy ih =>
+    intro z
+    rw [List.mem_cons, ih z, mem_eraseIdx_or l j y hy z]
+  | case4 => intro x; exact Iff.rfl
+
+theorem any_permute {α : Type} (code : List Nat) (l : List α) (f : α → Bool) :
+    (permute code l).any f = l.any f := by
+  rw [Bool.eq_iff_iff, List.any_eq_true, List.any_eq_true]
+  exact ⟨fun ⟨x, h1, h2⟩ => ⟨x, (mem_permute code l x).1 h1, h2⟩, fun ⟨x, h1, h2⟩ => ⟨x, (mem_permute code l x).2 h1, h2⟩⟩
+
+/-! ### a goal -/
+
+theorem lookup_cons (T : Table) (a : Atom) (k : Key) (b : Atom) :
+    lookup ((a, k) :: T) b = if (a == b) = true then some k else lookup T b := rfl
+
+theorem evalGoalWith_spec {P : Prog} {natoms : Nat} {rk : Atom → Nat} {chosen : Array Bool} {M : Atom → Bool}
+    {ev : Eval} (sched : Sched) (hw : WfP P natoms rk) (hM : IsModel P chosen M) (a : Atom)
+    (hev : ∀ c ∈ P.clausesOf a, ∀ b ∈ c.bodyAtoms, GoalSpec chosen M ev b) :
+    GoalSpec chosen M (evalGoalWith P sched ev) a := by
+  intro st hinv
+  cases hl : lookup st.table a with
+  | some k =>
+    exact ⟨k, st, by simp only [evalGoalWith, hl]; rfl, hinv, Ext.refl st, hinv.t a k hl⟩
+  | none =>
+    by_cases hcs : (P.clausesOf a).isEmpty = true
+    · refine ⟨FALSE, st, by simp only [evalGoalWith, hl, hcs, if_true]; rfl, hinv, Ext.refl st, trivial, fun ρ _ => ?_⟩
+      rw [hM a, List.isEmpty_iff.1 hcs]; rfl
+    · have hmem : ∀ c, c ∈ permute (sched a) (P.clausesOf a) → c ∈ P.clausesOf a :=
+        fun c h => (mem_permute _ _ c).1 h
+      obtain ⟨rs, st1, he1, hi1, hx1, hb1, hd1⟩ := evalClauses_spec (permute (sched a) (P.clausesOf a))
+        (fun c h => hw.nonempty a c (hmem c h)) (fun c h => hev c (hmem c h)) st hinv
+      have hval : ∀ ρ, Val chosen st1.store ρ → rs.any (keyVal ρ) = M a := fun ρ hρ => by
+        rw [hd1 ρ hρ, any_permute, ← hM a]
+      have hext : ∀ (k : Key) (S' : Store), Grows st1.store S' →
+          Ext st { table := (a, k) :: st1.table, store := S' } := fun k S' hg =>
+        ⟨hx1.grows.trans hg, fun b k' hb => by
+          show lookup ((a, k) :: st1.table) b = some k'
+          rw [lookup_cons]
+          have hne : ¬ ((a == b) = true) := by
+            intro hab
+            have : a = b := by simpa using hab
+            subst this; rw [hl] at hb; cases hb
+          rw [if_neg hne]; exact hx1.table b k' hb⟩
+      have hinv' : ∀ (k : Key) (S' : Store), SInv S' → Grows st1.store S' → Den chosen S' k (M a) →
+          Inv chosen M { table := (a, k) :: st1.table, store := S' } := fun k S' hs hg hd =>
+        ⟨hs, fun b k' hb => by
+          have hb' : lookup ((a, k) :: st1.table) b = some k' := hb
+          rw [lookup_cons] at hb'
+          by_cases hab : (a == b) = true
+          · rw [if_pos hab] at hb'
+            have : a = b := by simpa using hab
+            subst this; cases hb'; exact hd
+          · rw [if_neg hab] at hb'
+            exact (hi1.t b k' hb').mono hg⟩
+      by_cases hrs : rs.isEmpty = true
+      · have hd : Den chosen st1.store FALSE (M a) := ⟨trivial, fun ρ hρ => by
+          rw [← hval ρ hρ, List.isEmpty_iff.1 hrs]; rfl⟩
+        refine ⟨FALSE, { st1 with table := (a, FALSE) :: st1.table }, ?_, hinv' FALSE st1.store hi1.s (Grows.refl _) hd,
+          hext FALSE st1.store (Grows.refl _), hd⟩
+        simp only [evalGoalWith, hl, hcs, he1, bind, Except.bind, pure, Except.pure, hrs, if_true]
+        rfl
+      · obtain ⟨S2, k, ho, hs2, hg2, hb2, hsem⟩ := addOr_step hi1.s rs
+          (fun h => hrs (by rw [h]; rfl)) hb1
+        have hd : Den chosen S2 k (M a) := ⟨hb2, fun ρ hρ => by
+          rw [hsem ρ hρ.1]; exact hval ρ (hρ.of_grows hg2)⟩
+        refine ⟨k, { table := (a, k) :: st1.table, store := S2 }, ?_, hinv' k S2 hs2 hg2 hd, hext k S2 hg2, hd⟩
+        simp only [evalGoalWith, hl, hcs, he1, bind, Except.bind, pure, Except.pure, hrs, ho, liftB]
+        rfl
+
+/-- With fuel above the rank, `evalGoal` meets the goal specification (in particular: it does not run out of fuel). -/
+theorem evalGoal_spec {P : Prog} {natoms : Nat} {rk : Atom → Nat} {chosen : Array Bool} {M : Atom → Bool}
+    (sched : Sched) (hw : WfP P natoms rk) (hM : IsModel P chosen M) :
+    ∀ (fuel : Nat) (a : Atom), rk a < fuel → GoalSpec chosen M (evalGoal P sched fuel) a
+  | 0, a, h => by omega
+  | fuel + 1, a, h => by
+    show GoalSpec chosen M (evalGoalWith P sched (evalGoal P sched fuel)) a
+    exact evalGoalWith_spec sched hw hM a (fun c hc b hb =>
+      evalGoal_spec sched hw hM fuel b (by have := hw.ranks a c hc b hb; omega))
+
+/-! ### `ground`, `ground_all` -/
+
+theorem mem_setNames (ns : List (Label × Name × Key)) (l : Label) (n : Name) (k : Key) :
+    (l, n, k) ∈ setNames ns l n k := by
+  induction ns with
+  | nil => simp [setNames]
+  | cons x r ih =>
+    obtain ⟨l', n', k'⟩ := x
+    unfold setNames
+    split
+    · rename_i h
+      simp only [Bool.and_eq_true, beq_iff_eq] at h
+      rw [h.1, h.2]; exact List.mem_cons_self
+    · exact List.mem_cons_of_mem _ ih
+
+theorem addName_names (S : Store) (n : Name) (k : Key) (l : Label) (keep : Bool) :
+    (S.addName n k l keep).names = setNames S.names l n k := by
+  unfold Store.addName
+  simp only
+  split
+  · split
+    · split <;> rfl
+    · rfl
+  · rfl
+
+theorem groundOne_spec {P : Prog} {natoms : Nat} {rk : Atom → Nat} {chosen : Array Bool} {M : Atom → Bool}
+    (sched : Sched) (hw : WfP P natoms rk) (hM : IsModel P chosen M) (fuel : Nat) (c : Call) (hf : rk c.atom < fuel)
+    (st : St) (hinv : Inv chosen M st) :
+    ∃ k st', groundOne P sched fuel st c = .ok (k, st') ∧ Inv chosen M st' ∧ Ext st st' ∧
+      Den chosen st'.store k (M c.atom) ∧ (c.label, Name.pos c.atom, k) ∈ st'.store.names := by
+  obtain ⟨k, st1, he, hi1, hx1, hd⟩ := evalGoal_spec sched hw hM fuel c.atom hf st hinv
+  have hg := addName_grows st1.store (.pos c.atom) k c.label false
+  obtain ⟨hi2, hx2⟩ := hi1.store_step (addName_sinv hi1.s (.pos c.atom) k c.label) hg
+  refine ⟨k, { st1 with store := st1.store.addName (.pos c.atom) k c.label }, ?_, hi2, hx1.trans hx2, hd.mono hg, ?_⟩
+  · simp only [groundOne, he, bind, Except.bind, pure, Except.pure]
+  · show _ ∈ (st1.store.addName (.pos c.atom) k c.label).names
+    rw [addName_names]; exact mem_setNames _ _ _ _
+
+theorem groundAll_spec {P : Prog} {natoms : Nat} {rk : Atom → Nat} {chosen : Array Bool} {M : Atom → Bool}
+    (sched : Sched) (hw : WfP P natoms rk) (hM : IsModel P chosen M) (fuel : Nat) :
+    ∀ (calls : List Call), (∀ c ∈ calls, rk c.atom < fuel) → ∀ st, Inv chosen M st →
+      ∃ ks st', groundAll P sched fuel calls st = .ok (ks, st') ∧ Inv chosen M st' ∧ Ext st st' ∧
+        ks.length = calls.length ∧
+        ∀ i (hc : i < calls.length) (hk : i < ks.length), Den chosen st'.store ks[i] (M calls[i].atom)
+  | [], _, st, hinv => ⟨[], st, rfl, hinv, Ext.refl st, rfl, fun i hc _ => absurd hc (Nat.not_lt_zero i)⟩
+  | c :: cs, hf, st, hinv => by
+    obtain ⟨k, st1, he1, hi1, hx1, hd1, _⟩ := groundOne_spec sched hw hM fuel c (hf c List.mem_cons_self) st hinv
+    obtain ⟨ks, st2, he2, hi2, hx2, hlen, hd2⟩ := groundAll_spec sched hw hM fuel cs
+      (fun c' h => hf c' (List.mem_cons_of_mem _ h)) st1 hi1
+    refine ⟨k :: ks, st2, ?_, hi2, hx1.trans hx2, by simp [hlen], fun i hc hk => ?_⟩
+    · simp only [groundAll, he1, bind, Except.bind, pure, Except.pure, he2]
+    · cases i with
+      | zero => exact hd1.mono hx2.grows
+      | succ i => exact hd2 i (by simpa using hc) (by simpa using hk)
+
 end ProbLogProofs.GroundEval
